@@ -2,6 +2,9 @@ import ExprModel.Lex.Lexer
 import ExprModel.Syntax.Parser
 import ExprModel.Code.Compile
 import ExprModel.VM.Step
+import ExprModel.Types.Checker
+import ExprModel.Walk.Patch
+import ExprModel.Opt.Driver
 /-
 Model of `expr.Eval(input, env)` (expr.go): `parser.Parse` (lexer, then parser), `compiler.Compile(tree, nil)`
 (no type information, no optimiser, no result directive), `vm.Run` — all the model stages in a row.
@@ -38,5 +41,90 @@ def evalSource (F : Front) (c : Cfg) (fuel : Nat) (src : String) : EvalOut :=
       | .ok cp =>
         let out := run c (progOfCompiled cp) fuel
         .ran out.1 out.2
+
+/-! ### `expr.Compile(input, Env(env), …)` followed by `expr.Run`: the typed pipeline -/
+
+/-- what the options of `expr.Compile` leave in `conf.Config`, as far as the stages consult it -/
+structure TypedCfg where
+  /-- `Types`, `Strict`, `DefaultType`, `Expect` (and the variant of the checker model) -/
+  check : CheckCfg
+  /-- `MapEnv`: the environment is a `map[string]interface{}` -/
+  mapEnv : Bool
+  /-- `Optimize` (default on) -/
+  optimize : Bool := true
+  optFlags : Opt.Flags := Opt.Flags.asIs
+  /-- `ConstExprFns` as (name, behaviour id) -/
+  constFns : Opt.ConstFns := []
+  /-- `Operators` with, for `Config.Check`, the shapes of the environment's functions, and, for
+      `PatchOperators`, the candidate signatures and the (opaque) type key of an annotated node -/
+  operators : List (String × List String) := []
+  fnTags : List (String × FnTag) := []
+  opTable : OpTable := []
+  tyOf : Node → String := fun _ => nilTyKey
+  walkTbl : WalkTable := refSlots
+
+/-- the operand of the result directive the compiler appends (`AsInt64` / `AsFloat64`; `AsBool` only checks) -/
+def castOf : Expect → Option Nat
+  | .int64 => some 0
+  | .float64 => some 1
+  | _ => none
+
+def TypedCfg.compCfg (T : TypedCfg) : CompCfg := { mapEnv := T.mapEnv, cast := castOf T.check.expect }
+
+inductive CompileOut where
+  | configError (r : CheckRes)
+  | lexError (e : LexErr)
+  | parseError (e : Parser.Err)
+  | checkError (loc : Option Loc) (c : CheckErrClass)
+  | checkPanic (msg : String)
+  | patchPanic
+  | optimizeError (loc : Loc)
+  | compileError (e : CompErr)
+  | ok (cp : Compiled) (checked final : Node)
+
+/-- the stages between the parser and the compiler, on a parsed tree: `Check`, `PatchOperators`, `Check` again
+    (no visitors: an error of the first check is final), `Optimize` when on.
+    `checked` is the tree after the second check, `final` the tree handed to the compiler. -/
+def middle (T : TypedCfg) (w : World) (n : Node) : CompileOut :=
+  match check T.check n with
+  | .error loc c _ => .checkError loc c
+  | .panic msg => .checkPanic msg
+  | .ok n1 _ =>
+    match patchOperators T.walkTbl T.opTable T.tyOf n1 with
+    | none => .patchPanic
+    | some n2 =>
+      match check T.check n2 with
+      | .error loc c _ => .checkError loc c
+      | .panic msg => .checkPanic msg
+      | .ok n3 _ =>
+        let opt : Except Loc Node := if T.optimize then Opt.optimize T.optFlags T.constFns w n3 else .ok n3
+        match opt with
+        | .error loc => .optimizeError loc
+        | .ok n4 =>
+          match compileProgram T.compCfg n4 with
+          | .error e => .compileError e
+          | .ok cp => .ok cp n3 n4
+
+/-- `expr.Compile` -/
+def compileSource (F : Front) (T : TypedCfg) (w : World) (src : String) : CompileOut :=
+  match configCheck T.fnTags T.operators with
+  | .ok =>
+    match lex F.cc F.tables src with
+    | .error e => .lexError e
+    | .ok ts =>
+      match Parser.parse F.pcfg ts with
+      | .error e => .parseError e
+      | .ok n => middle T w n
+  | r => .configError r
+
+inductive RunOut where
+  | notCompiled (o : CompileOut)
+  | ran (cp : Compiled) (res : R Val) (final : VM)
+
+/-- `expr.Compile` then `expr.Run` -/
+def runSource (F : Front) (T : TypedCfg) (c : Cfg) (fuel : Nat) (src : String) : RunOut :=
+  match compileSource F T c.world src with
+  | .ok cp _ _ => let out := run c (progOfCompiled cp) fuel; .ran cp out.1 out.2
+  | o => .notCompiled o
 
 end ExprModel.Api
